@@ -127,7 +127,6 @@ def call_op(L, ex, op, recv, inplace_mode):
     a = [ex.dec(x) for x in op.get('a', [])]
     k = {kk: ex.dec(v) for kk, v in op.get('k', {}).items()}
     k.pop('inplace', None)
-    k.pop('extend_formatting', None)     # AnsiString-only parameter: not part of the common signature
     if m == 'getitem':
         return recv[a[0]]
     if m == 'add':
